@@ -3,7 +3,8 @@
 Enumerated from the LIVE app: every rule of app.url_map x every method the rule allows (a route
 added later is included automatically) x credential shapes x instance id {live, unknown,
 externalised-only} x body {none, {}, a valid body for that route} x server state {no instances,
-live session, locked session, externalised state on disk}.
+live session, locked session, externalised state on disk, after authorised traffic on every route
+(most of it ending in errors)}.
 Oracle: status is non-success (>= 400) for every non-public rule, and a deep snapshot taken before
 and after the request is identical: instance table, each instance's session state, time/timeout,
 scenario constants/points/run specs of the root bptk and of every instance, the external state
@@ -80,6 +81,20 @@ def build_state(state, workdir):
         # the instance lives on disk only
         app._instance_manager._instances.pop(ext)
     ids["externalised"] = ext
+    if state == "after-authorised-traffic":
+        # every route has been used WITH the token before, most of these requests ending in an error (unknown instance, missing or empty
+        # body): whatever an authorised request leaves behind in the server must not open the door for the next one without the token
+        for (rule, method, endpoint, args) in requests_for(app):
+            if method in ("OPTIONS", "HEAD"):
+                continue
+            path = rule.replace("<instance_uuid>", ids["unknown"]).replace("<path:filename>", "x.txt")
+            for kw in ({}, {"json": {}}):
+                try:
+                    r = client.open(path, method=method, headers=h, **kw)
+                    r.get_data()
+                    r.close()
+                except Exception:
+                    pass
     return app, client, ids, sd
 
 
@@ -185,7 +200,7 @@ def describe_diff(a, b):
     return "; ".join(out) or "snapshot differs"
 
 
-STATES = ["no-instances", "live-session", "locked-session", "externalised-on-disk"]
+STATES = ["no-instances", "live-session", "locked-session", "externalised-on-disk", "after-authorised-traffic"]
 
 
 def _work(state):
@@ -193,7 +208,7 @@ def _work(state):
 
 
 def run(ctx):
-    res = core.pmap(_work, core.rot(STATES, ctx.seed), workers=4)
+    res = core.pmap(_work, core.rot(STATES, ctx.seed), workers=len(STATES))
     tot = {"requests": 0, "protected_requests": 0}
     rule_methods = 0
     open_notes = {}
